@@ -123,13 +123,16 @@ fn mk_fn(f: &FnDesc) -> Option<slac::function::Function> {
     use slac::function::{Arity, Function};
     let arity = match f.kind { 'P' => Arity::Polyadic { required: f.req, optional: f.opt }, 'V' => Arity::Variadic, _ => Arity::None };
     // the registered spelling, arity and behaviour identify the object: behaviour is observable through `call`
-    Some(Function { name: f.name.clone(), func: behaviour(&f.beh)?, arity, params: format!("{}", f.beh), pure: f.pure })
+    // the declaration may or may not carry a parameter list (`Function::new` leaves `params` empty for a bare name): decided by the description
+    let bare = (f.name.len() + f.req + 2 * f.opt + f.beh.len()) % 2 == 0;
+    Some(Function { name: f.name.clone(), func: behaviour(&f.beh)?, arity, params: if bare { String::new() } else { format!("({})", f.beh) }, pure: f.pure })
 }
 /// a function object is identified by its registered spelling, arity, purity and behaviour tag
 fn show_fn(f: &slac::function::Function) -> String {
     use slac::function::Arity;
     let a = match f.arity { Arity::Polyadic { required, optional } => format!("P{}+{}", required, optional), Arity::Variadic => "V".into(), Arity::None => "N".into() };
-    let beh = if BEHAVIOURS.contains(&f.params.as_str()) { f.params.clone() } else { format!("b:{}", f.name) };
+    // the function object itself (its code address) says which test behaviour it is - not its documentation string
+    let beh = match BEHAVIOURS.iter().find(|b| behaviour(b).map(|g| g as usize) == Some(f.func as usize)) { Some(b) => b.to_string(), None => format!("b:{}", f.name) };
     format!("{}:{}:{}:{}", hex(&f.name), a, if f.pure { 1 } else { 0 }, beh)
 }
 
